@@ -781,6 +781,11 @@ def annotate_fn(sf, item, blk, counts, meta, mode, qual_name, extra_ensures=None
             cl = match_close(btoks, k0[0])
             key = '/*@%s%d@*/' % ({'loop-start': 'LS', 'loop-end': 'LE', 'after-loop': 'LA'}[where], occ)
             txt = '\n' + '\n'.join(lines) + '\n'
+            if where == 'loop-end' and key not in marker_text:
+                # the loop body may end with an expression statement without `;` (of type ()): close it
+                prev = body[:btoks[cl].start].rstrip()
+                if prev and prev[-1] not in ';{}':
+                    txt = ';' + txt
             if key in marker_text:
                 marker_text[key] += txt
             else:
